@@ -195,6 +195,12 @@ func genApiExpect(r *h.Rand) h.Case {
 		{fmt.Sprintf(`{{if true}}{{ gv := 2 }}{{ apiLetGlobal("gv", %d) }}<{{gv}}>{{end}}[{{gv}}]`, v), fmt.Sprintf("<2>[%d]", v)},
 		{fmt.Sprintf(`{{block lb()}}{{ apiLetGlobal("gv", %d) }}{{end}}[{{gv}}]`, v), fmt.Sprintf("[%d]", v)},
 		{`{{include "/lg.jet"}}[{{gv}}]`, "[1]"},
+		{`{{include "/lg2.jet"}}[{{gv}}]`, "[in:2][2]"},
+		{`{{include "/lg3.jet"}}[{{gv}}]`, "[3]"},
+		{`{{if true}}{{ a := 1 }}{{include "/lg2.jet"}}{{end}}[{{gv}}]`, "[in:2][2]"},
+		{`{{ x := includeIfExists("/lg2.jet") }}[{{gv}}]`, "[in:2][2]"},
+		{`{{ exec("/lg2.jet") }}[{{gv}}]`, "[2]"},
+		{`{{block lb2(p=1)}}{{include "/lg2.jet"}}{{end}}[{{gv}}]`, "[in:2][2]"},
 		// SetOrLet: declares when only a global / default of that name exists, rebinds when a template variable exists
 		{fmt.Sprintf(`{{ d := 0 }}{{ apiSetOrLet("g", %d) }}[{{g}}]`, v), fmt.Sprintf("[%d]", v)},
 		{fmt.Sprintf(`{{ d := 0 }}{{ apiSetOrLet("len", %d) }}[{{len}}]`, v), fmt.Sprintf("[%d]", v)},
@@ -235,7 +241,9 @@ func genApiExpect(r *h.Rand) h.Case {
 		}
 		want = o + want[2:]
 	}
-	p.files = map[string]string{"/main.jet": c.src, "/lg.jet": `{{ apiLetGlobal("gv", 1) }}`}
+	p.files = map[string]string{"/main.jet": c.src, "/lg.jet": `{{ apiLetGlobal("gv", 1) }}`,
+		"/lg2.jet": `{{ q := 1 }}{{if true}}{{ z := 2 }}{{range li}}{{ apiLetGlobal("gv", 2) }}{{end}}{{end}}[in:{{gv}}]`,
+		"/lg3.jet": `{{include "/lg3b.jet"}}`, "/lg3b.jet": `{{if w := 1; w}}{{ apiLetGlobal("gv", 3) }}{{end}}`}
 	cs := withExpect(evalCase("api-expect", p), want, nil)
 	if strings.Contains(c.src, "probe(7") {
 		cs = withExpect(evalCase("api-expect", p), want, sx.L(sx.L(sx.A("probe"), sx.I(7)), sx.L(sx.A("probe"), sx.I(7))))
